@@ -5,6 +5,10 @@ Tie: the real `setup_config` (TOML file in a temp dir → defaults → `check_co
 (same accept / error kind, same normalised fields), over an exhaustive product of small domains
 of every validated field plus a seeded random mix of all fields.
 
+The five defects found by this check (cap below a wire-fencing interface, cap 0.0 skipped, IndexError on an
+empty interface list, ensemble_engines too short / with an empty list) were repaired in /repo (729bb50); the
+model mirrors the repaired code and the old witnesses stay in WITNESSES and corpus/C18 as regression cases.
+
 Property predicate, evaluated on the implementation's own outcome (independent Python
 transcription `py_valid`, cross-checked against Lean's `validB`, which `validB_iff` proves equal
 to `Valid`):
@@ -405,7 +409,8 @@ def gen_cases(ctx):
 
 
 WITNESSES = [
-    # (name, case) — the Lean counterexample witnesses in the harness' units, replayed every run
+    # (name, case) — witnesses of the defects repaired by /repo commit 729bb50 (also in corpus/C18, where the
+    # framework replays them first and reports them under their old signatures if they ever fail again)
     ("capBelowWf", mkcase((0, 2, 4), 2, (0, 0, 1), cap=1, lm1=-1, quantis=0)),
     ("capZero", mkcase((1, 2, 3), 2, (0, 0, 0), cap=0, lm1=-1, quantis=0)),
     ("capAtFirst", mkcase((0, 2, 4), 2, (0, 1, 0), cap=0, lm1=-1, quantis=0)),
@@ -512,7 +517,7 @@ def _run(ctx, real):
         out = ctx.driver([to_line("all", c) for c in cases])
     n_init = 0
     n_restart = 0
-    init_budget = 4000 if ctx.quick else 40000
+    init_budget = 8000 if ctx.quick else 40000
     restart_budget = 150 if ctx.quick else 1500
     for k, c in enumerate(cases):
         d = to_dict(c, real.tmp)
@@ -530,7 +535,7 @@ def _run(ctx, real):
                     ctx.disagree({"fn": "Valid: py_valid(real normalised config) vs Lean validB", "case": case_obj(c)},
                                  pv, m_valid)
         interesting = cfg is not None and (c[3] is not None or k < len(WITNESSES) or c[6] is not None)
-        do_init = cfg is not None and (interesting or n_init < init_budget // 2) and n_init < init_budget
+        do_init = cfg is not None and n_init < init_budget
         do_restart = do_init and n_restart < restart_budget and (k % 7 == 0 or k < len(WITNESSES))
         if do_init:
             n_init += 1
